@@ -88,7 +88,7 @@ Definition v3_decode_encrypted_response (key : option bytes) (packet : bytes) : 
     else
       do h5 <- idx header 5;
       let pad := N.to_nat (N.shiftr h5 4) in
-      Ok (slice_neg dec 2 pad)
+      Ok (slice dec 2 (length dec - pad))        (* payload[2:len(payload) - pad] (fix for pad = 0) *)
   end.
 
 Definition v3_process_packet (key : option bytes) (packet : bytes) : res bytes :=
